@@ -40,6 +40,19 @@ func nonNilFact(at ssa.Instruction, v ssa.Value) bool {
 
 func c35(c *core.Ctx) {
 	initOwners(c)
+	c.Rule("C35.owner", "a request that carries another session's token performs no action on that session's objects: every effect on a subscription / monitored item is dominated by the equality of the caller's token with the object's owner (C32.owner applies verbatim: a result code alone is not enough)", 4)
+	{
+		tmp := core.NewCtx(c.Prop, c.Tier, c.P)
+		c32(tmp)
+		for _, e := range tmp.Errors {
+			c.Fatal("%s", e)
+		}
+		for _, o := range tmp.Obs {
+			if o.Rule == "C32.owner" {
+				c.Ob("C35.owner", o.Key, o.Pos, o.OK, o.Detail)
+			}
+		}
+	}
 	handle := fn(c, "server", "Server", "handleService")
 	activate := fn(c, "server", "SessionService", "ActivateSession")
 	sbClose := fn(c, "server", "sessionBroker", "Close")
@@ -298,6 +311,7 @@ func keyShape(v ssa.Value) string {
 
 func c32(c *core.Ctx) {
 	initOwners(c)
+	c32IDSpace(c)
 	subs := field(c, "server", "SubscriptionService", "Subs")
 	items := field(c, "server", "MonitoredItemService", "Items")
 	nodes := field(c, "server", "MonitoredItemService", "Nodes")
